@@ -1139,6 +1139,9 @@ func hdrE2E(c *suiteCtx) {
 		preferEmail := false // the legacy option itself (beside the header lists it shapes): htpasswd sessions — and only those — get user = e-mail
 		if legacy {
 			m := r.intn(512)
+			if i == 4 {
+				m |= 1<<7 | 1<<2 | 1<<5 // one htpasswd + bearer environment with prefer-email-to-user, user headers and x-auth-request for sure
+			}
 			bit := func(i int) bool { return m>>i&1 == 1 }
 			l := options.LegacyHeaders{PassBasicAuth: bit(0), PassAccessToken: bit(1), PassUserHeaders: bit(2), PassAuthorization: bit(3),
 				SetBasicAuth: bit(4) && bit(0), SetXAuthRequest: bit(5), SetAuthorization: bit(6), PreferEmailToUser: bit(7),
